@@ -49,8 +49,64 @@ def build(reg):
                        'len(bu_log) - len(old(bu_log)) <= %s' % N,
                        '(len(bu_log) - len(old(bu_log)) < %s) ==> connects == old(connects)' % N,
                        'connects > old(connects) ==> len(bu_log) - len(old(bu_log)) == %s' % N]
+    # a hook returning None ends the chain (no later hook is called) and suppresses the upstream connection:
+    # ghost bu_none = "the last before_upstream_connection hook returned None" (seed C09c: a loop without
+    # the `break` consulted every plugin, so the clauses counting consulted plugins held vacuously)
+    bu.ghost_init = dict(bu.ghost_init, bu_none='bool')
+    bu.requires = bu.requires + [('no-hook-after-one-returned-none', 'not bu_none')]
+    bu.ensures = bu.ensures + [('none-seen', 'bu_none == isnone(result)')]
+    orc.ghost_init = dict(orc.ghost_init, bu_none='bool')
+    orc.requires = orc.requires + [('fresh-chain', 'not bu_none')]
+    orc.ensures = orc.ensures + [('none-ends-the-chain-and-suppresses-upstream', 'bu_none ==> connects == old(connects)')]
+    l0.modifies = l0.modifies + ['bu_none']
+    l0.inv = l0.inv + ['not bu_none']
+    l1.inv = l1.inv + ['bu_none ==> connects == old(connects)']
     orc.raises = {'Exception': orc.raises['Exception'] + [
         ('rejection-ends-the-chain', '(bu_raised and not old(bu_raised)) ==> hc_log == old(hc_log)')]}
     # lifecycle: the protocol handler's shutdown (C10's contract, re-proved here)
     T += [c for c in T10 if c.qualname in ('HttpProtocolHandler.shutdown', 'HttpProtocolHandler._flush')]
+    T += access_log_contracts(reg)
     return T
+
+
+def access_log_contracts(reg):
+    """The lifecycle chains at the end of HttpProxyPlugin.on_client_connection_close (statements
+    `log_handled = False` .. the on_upstream_connection_close loop): on_access_log hooks in configured
+    order, each at most once, each handed the context the previous one returned, a hook returning None
+    ends the chain and suppresses the default access log, otherwise the default log gets the last
+    context exactly once; then every plugin's on_upstream_connection_close exactly once, in order.
+    `context` (built by the statements before the slice) is a symbolic opaque value."""
+    CTX = ('opaque', 'LogCtx')
+    G = {'al_log': ('seq', 'int'), 'uc_log': ('seq', 'int'), 'deflog': ('seq', 'int'), 'cur_ctx': 'int', 'al_none': 'bool'}
+    reg.contract('<plugin>', 'ProxyBasePlugin.on_access_log', params={'context': CTX}, self_cls='ProxyBasePlugin', assumed=True,
+                 modifies=[], result=('opt', CTX), ghost_init={'al_log': ('seq', 'int'), 'cur_ctx': 'int', 'al_none': 'bool'},
+                 requires=[('receives-the-context-returned-by-the-previous-hook', 'evid(context) == cur_ctx'),
+                           ('chain-not-ended', 'not al_none')],
+                 ensures=[('logged', 'al_log == old(al_log) + [self]'), ('none-seen', 'al_none == isnone(result)'),
+                          ('hands-on', 'cur_ctx == (old(cur_ctx) if isnone(result) else evid(result))')],
+                 raises={}, note='user plugin hook: any result; assumed not to raise here (F16)')
+    uc = reg.contracts['ProxyBasePlugin.on_upstream_connection_close']
+    uc.ghost_init = dict(uc.ghost_init, uc_log=('seq', 'int'))
+    uc.ensures = uc.ensures + [('logged', 'uc_log == old(uc_log) + [self]')]
+    reg.contract(SV, 'HttpProxyPlugin.access_log', params={'log_attrs': CTX}, self_cls='HttpProxyPlugin', assumed=True,
+                 modifies=[], ghost_init={'deflog': ('seq', 'int')},
+                 ensures=[('logged', 'deflog == old(deflog) + [evid(log_attrs)]')], raises={},
+                 note='the default access log line (logging only)')
+    N = 'len(self.plugins)'
+    NAL = '(len(al_log) - len(old(al_log)))'
+    return [reg.contract(
+        SV, 'HttpProxyPlugin.on_client_connection_close', self_cls='HttpProxyPlugin', ghost={'context': CTX}, ghost_init=G,
+        body_slice=('log_handled = False', 'plugin.on_upstream_connection_close()'),
+        requires=[('chain-starts-with-the-built-context', 'cur_ctx == evid(context)'), ('fresh-chain', 'not al_none')],
+        modifies=[],
+        ensures=[('access-log-hooks-in-configured-order', 'al_log == old(al_log) + ' + DV % NAL),
+                 ('each-access-log-hook-at-most-once', '%s <= %s' % (NAL, N)),
+                 ('none-ends-the-chain-and-suppresses-the-default-log', 'al_none ==> deflog == old(deflog)'),
+                 ('default-log-once-with-the-last-context-otherwise',
+                  '(not al_none) ==> (deflog == old(deflog) + [cur_ctx] and %s == %s)' % (NAL, N)),
+                 ('upstream-close-hook-of-every-plugin-exactly-once-in-order', 'uc_log == old(uc_log) + ' + DV % N)],
+        raises={},
+        loops={0: LoopSpec(index='i', modifies=['context', 'ctx', 'log_handled', 'al_log', 'cur_ctx', 'al_none'],
+                           inv=['al_log == old(al_log) + ' + DV % 'i', 'i >= 0', 'cur_ctx == evid(context)', 'not al_none',
+                                'not log_handled']),
+               1: LoopSpec(index='i', modifies=['uc_log'], inv=['uc_log == old(uc_log) + ' + DV % 'i', 'i >= 0'])})]
